@@ -439,7 +439,7 @@ func C09() int {
 	c09CLINegatives(s, c, rng, kdir, keys, cts, strs)
 
 	c.Set("keys", len(keys))
-	c.Set("race_reports", s.RaceReports())
+	raceVerdict(s, c)
 	if c.Counter("cli_decrypt_roundtrips") < 400 || c.Counter("library_roundtrips") < 10000 {
 		c.Inconclusive("too few round trips observed")
 	}
